@@ -114,6 +114,15 @@ impl Val {
             _ => false,
         }
     }
+    pub fn all_ascii(&self) -> bool {
+        match self {
+            Val::Char(c) => c.is_ascii(),
+            Val::Text(t) => t.is_ascii(),
+            Val::Pair(l, r) | Val::Range(l, r) | Val::Concat(l, r) | Val::Slice(l, r) | Val::Partial(l, r) => l.all_ascii() && r.all_ascii(),
+            Val::List(items) => items.iter().all(|i| i.all_ascii()),
+            _ => true,
+        }
+    }
     pub fn is_bad(&self) -> bool {
         match self {
             Val::Bad(_) => true,
@@ -171,7 +180,8 @@ impl Val {
 pub fn num_to_val(n: SimpleNumber) -> Val {
     match n {
         SimpleNumber::Integer(i) => Val::Int(i),
-        SimpleNumber::Float(f) => Val::Float(f.to_bits()),
+        // sign and payload of a not-a-number carry no meaning (and SimpleGarnishData interns all of them as one)
+        SimpleNumber::Float(f) => Val::Float(if f.is_nan() { f64::NAN.to_bits() } else { f.to_bits() }),
     }
 }
 
